@@ -338,8 +338,20 @@ def run_cases(ck: Ck, mod, descs):
     can_alarm = hasattr(signal, "SIGALRM")
     if can_alarm:
         signal.signal(signal.SIGALRM, _alarm)
+    import logging
+
+    root = logging.getLogger()
+    null = logging.NullHandler()
     for desc in descs:
         ck.begin(desc)
+        # the calling application's logging set-up is part of the environment of every call: a fifth of the
+        # cases (fixed by the descriptor, so a replay reproduces it) run with the root logger at DEBUG
+        verbose = int(case_hash(desc), 16) % 5 == 0
+        level_before = root.level
+        if verbose:
+            root.addHandler(null)
+            root.setLevel(logging.DEBUG)
+            ck.count("cases_run_with_logging_at_DEBUG")
         try:
             if can_alarm:
                 signal.alarm(limit)
@@ -348,6 +360,9 @@ def run_cases(ck: Ck, mod, descs):
             finally:
                 if can_alarm:
                     signal.alarm(0)
+                if verbose:
+                    root.setLevel(level_before)
+                    root.removeHandler(null)
         except CaseWatchdog:
             ck.inconclusive_because(f"a case exceeded the {limit} s per-case watchdog (case {case_hash(desc)})")
             ck.count("cases_stopped_by_watchdog")
